@@ -191,7 +191,17 @@ impl Archive {
     /// Return the last completely-written band id, if any.
     pub async fn last_complete_band(&self) -> Result<Option<Band>> {
         for band_id in self.list_band_ids().await?.into_iter().rev() {
-            let b = Band::open(self, band_id).await?;
+            let b = match Band::open(self, band_id).await {
+                Ok(b) => b,
+                Err(err @ (Error::BandHeadMissing { .. } | Error::DeserializeJson { .. })) => {
+                    // A backup interrupted while creating its band can leave a directory
+                    // with no head, or an empty one: that's certainly not a complete band,
+                    // but older complete bands are still usable.
+                    warn!(?band_id, ?err, "Skipping band with missing or unreadable head");
+                    continue;
+                }
+                Err(err) => return Err(err),
+            };
             if b.is_closed().await? {
                 return Ok(Some(b));
             }
